@@ -12,6 +12,7 @@ pub mod c12;
 pub mod c13;
 pub mod c14;
 pub mod c15;
+pub mod c16;
 pub mod c19;
 
 use crate::engine::Runner;
@@ -34,6 +35,7 @@ pub fn run(id: &str, r: &mut Runner) {
         "C13" => c13::run(r),
         "C14" => c14::run(r),
         "C15" => c15::run(r),
+        "C16" => c16::run(r),
         "C19" => c19::run(r),
         _ => {
             println!("HARNESS-ERROR property {id} has no check yet");
